@@ -62,14 +62,14 @@ Section NoFuel.
   Qed.
 End NoFuel.
 
-Lemma equalObjects_terminates : forall limit g fuel depth o1 o2 pairs,
+Lemma equalObjectsD_terminates : forall limit g fuel depth o1 o2 pairs,
   (Z.to_nat (limit + 1 - depth) + 1 <= fuel)%nat ->
-  equalObjects fuel limit g o1 o2 pairs depth <> CFuel.
+  equalObjectsD fuel limit g o1 o2 pairs depth <> CFuel.
 Proof.
   intros limit g fuel. induction fuel as [|f IH]; intros depth o1 o2 pairs L. lia.
   simpl. destruct (limit <? depth) eqn:EL. discriminate.
   apply Z.ltb_ge in EL.
-  assert (forall x y p, equalObjects f limit g x y p (depth + 1) <> CFuel) as Hrec.
+  assert (forall x y p, equalObjectsD f limit g x y p (depth + 1) <> CFuel) as Hrec.
   { intros x y p. apply IH. replace (limit + 1 - depth) with (Z.succ (limit + 1 - (depth + 1))) in L by lia.
     rewrite Z2Nat.inj_succ in L by lia. lia. }
   destruct o1; try (apply compareDeref_nf; exact Hrec).
@@ -85,7 +85,7 @@ Qed.
 Theorem equal_objects_terminates : forall limit g o1 o2 pairs fuel,
   (enoughFuel limit <= fuel)%nat -> EqualObjects fuel limit g o1 o2 pairs <> CFuel.
 Proof.
-  intros limit g o1 o2 pairs fuel L. unfold EqualObjects. apply equalObjects_terminates.
+  intros limit g o1 o2 pairs fuel L. unfold EqualObjects. apply equalObjectsD_terminates.
   unfold enoughFuel in L. replace (limit + 1 - 0) with (limit + 1) by lia. exact L.
 Qed.
 
